@@ -1,6 +1,224 @@
-//! Property C09 — correspondence / expectation run (see DESIGN.md §5, C09).
+//! Property C09 — setup and trim produce well-formed, mutually consistent keys.
+use crate::common::*;
+use crate::generic::{IpaPC, HyraxScheme};
+use crate::kzg::{Kzg, Trap};
+use crate::marlin::{self, Case, PC as MarlinPC};
+use crate::wire;
 use crate::Ctx;
+use ark_bls12_381::{Bls12_381, Fr, G1Affine};
+use ark_ec::{pairing::Pairing, AffineRepr, CurveGroup};
+use ark_ff::{One, UniformRand, Zero};
+use ark_poly::{univariate::DensePolynomial, DenseUVPolynomial};
+use ark_poly_commit::{LabeledPolynomial, PCCommitterKey, PCVerifierKey, PolynomialCommitment};
+use std::ops::Mul;
 
 pub fn run(ctx: &mut Ctx) {
-    let _ = ctx;
+    kzg_real_setup(ctx);
+    marlin_trim(ctx);
+    transparent_generators(ctx);
+    ctx.flush_model("C09");
+}
+
+/// real `setup`: recover the trapdoor by replaying the RNG, verify every element against it and
+/// through pairings
+fn kzg_real_setup(ctx: &mut Ctx) {
+    let n = ctx.n(12, 64);
+    for i in 0..n {
+        let id = format!("C09/kzg10-setup/{}", i);
+        if !ctx.selected(&id) { continue; }
+        let mut rng = rng_for(ctx.seed, "C09/kzg10-setup", i as u64);
+        let max_degree = if ctx.thorough { 1 + i % 64 } else { range(&mut rng, 1, 24) };
+        let g2 = coin(&mut rng);
+        let replay = rng.clone();
+        let pp = match guarded(|| Kzg::setup(max_degree, g2, &mut rng)) {
+            Ok(Ok(p)) => p,
+            _ => { ctx.rep.expect_fail(&id, "kzg10/setup-refused", "setup refused an in-domain request", format!("# kzg10 setup({})\n", max_degree)); continue; }
+        };
+        // the trapdoor is among the first field draws
+        let mut r = replay.clone();
+        let cands: Vec<Fr> = (0..4).map(|_| Fr::rand(&mut r)).collect();
+        let beta = cands.iter().cloned().find(|b| pp.powers_of_g.len() >= 2 && pp.powers_of_g[0].mul(*b).into_affine() == pp.powers_of_g[1]);
+        let mut bad: Vec<String> = vec![];
+        if pp.powers_of_g.len() != max_degree + 1 { bad.push(format!("powers_of_g has {} elements for max_degree {}", pp.powers_of_g.len(), max_degree)); }
+        if pp.powers_of_gamma_g.len() != max_degree + 2 { bad.push(format!("powers_of_gamma_g has {} elements", pp.powers_of_gamma_g.len())); }
+        match beta {
+            None => bad.push("no early RNG draw is the trapdoor of powers_of_g".into()),
+            Some(b) => {
+                for k in 0..max_degree {
+                    if pp.powers_of_g[k].mul(b).into_affine() != pp.powers_of_g[k + 1] { bad.push(format!("powers_of_g[{}] != beta*powers_of_g[{}]", k + 1, k)); break; }
+                }
+                for k in 0..=max_degree {
+                    if pp.powers_of_gamma_g[&k].mul(b).into_affine() != pp.powers_of_gamma_g[&(k + 1)] { bad.push(format!("gamma power {} inconsistent", k + 1)); break; }
+                }
+                if pp.h.mul(b).into_affine() != pp.beta_h { bad.push("beta_h != beta*h".into()); }
+                if g2 {
+                    if pp.neg_powers_of_h.len() != max_degree + 1 { bad.push("neg_powers_of_h size".into()); }
+                    for k in 0..max_degree {
+                        if pp.neg_powers_of_h[&(k + 1)].mul(b).into_affine() != pp.neg_powers_of_h[&k] { bad.push(format!("neg power {} inconsistent", k + 1)); break; }
+                    }
+                    if pp.neg_powers_of_h.get(&0) != Some(&pp.h) { bad.push("neg_powers_of_h[0] != h".into()); }
+                } else if !pp.neg_powers_of_h.is_empty() { bad.push("unexpected G2 powers".into()); }
+            }
+        }
+        // pairing identities e(P_{k+1}, h) == e(P_k, beta h) (independent of the recovered trapdoor)
+        let step = if max_degree > 16 { 5 } else { 1 };
+        let mut k = 0;
+        while k < max_degree {
+            if Bls12_381::pairing(pp.powers_of_g[k + 1], pp.h) != Bls12_381::pairing(pp.powers_of_g[k], pp.beta_h) { bad.push(format!("pairing identity fails at {}", k)); break; }
+            k += step;
+        }
+        if pp.powers_of_g[0].is_zero() || pp.h.is_zero() || pp.powers_of_gamma_g[&0].is_zero() { bad.push("identity generator".into()); }
+        use ark_poly_commit::PCUniversalParams;
+        if pp.max_degree() != max_degree { bad.push("max_degree() report".into()); }
+        if !bad.is_empty() {
+            ctx.rep.expect_fail(&id, "kzg10/setup-inconsistent", &bad.join("; "), format!("# scheme: kzg10 setup({}, {})\n# seed {} case {}\n# {}\n", max_degree, g2, ctx.seed, id, bad.join("; ")));
+        }
+        // trim on the real parameters: faithful sub-keys (equals-spec), interoperability, boundary commit
+        let supported = range(&mut rng, 1, max_degree);
+        let shb = range(&mut rng, 0, supported);
+        let tb: Option<Vec<usize>> = match range(&mut rng, 0, 3) { 0 => None, 1 => Some(vec![]), _ => Some((0..range(&mut rng, 1, 3)).map(|_| range(&mut rng, 1, max_degree)).collect()) };
+        match guarded(|| MarlinPC::trim(&pp, supported, shb, tb.as_deref())) {
+            Ok(Ok((ck, vk))) => {
+                let mut bad: Vec<String> = vec![];
+                if ck.powers != pp.powers_of_g[..=supported].to_vec() { bad.push("ck.powers is not the prefix of the parameters".into()); }
+                let gp: Vec<G1Affine> = (0..=shb + 1).map(|k| pp.powers_of_gamma_g[&k]).collect();
+                if ck.powers_of_gamma_g != gp { bad.push("ck gamma powers".into()); }
+                if vk.vk.g != pp.powers_of_g[0] || vk.vk.gamma_g != pp.powers_of_gamma_g[&0] || vk.vk.h != pp.h || vk.vk.beta_h != pp.beta_h { bad.push("vk generators differ from the parameters".into()); }
+                if ck.supported_degree() != supported || ck.max_degree() != max_degree || vk.supported_degree() != supported || vk.max_degree() != max_degree { bad.push("degree reports".into()); }
+                let mut sorted = tb.clone().unwrap_or_default(); sorted.sort(); sorted.dedup();
+                match (&tb, &ck.enforced_degree_bounds) {
+                    (None, None) => {}
+                    (Some(_), Some(b)) if *b == sorted => {}
+                    _ => bad.push("enforced bounds are not sort(dedup(request))".into()),
+                }
+                if let Some(sh) = &vk.degree_bounds_and_shift_powers {
+                    if sh.iter().map(|x| x.0).collect::<Vec<_>>() != sorted { bad.push("vk shift bounds".into()); }
+                    for (d, p) in sh { if *p != pp.powers_of_g[max_degree - d] { bad.push(format!("shift power for bound {}", d)); } }
+                    let last = *sorted.last().unwrap();
+                    if ck.shifted_powers.as_ref() != Some(&pp.powers_of_g[max_degree - last..].to_vec()) { bad.push("shifted window".into()); }
+                } else if !sorted.is_empty() { bad.push("missing shift powers".into()); }
+                // second trim with other arguments: same verifier core (interoperability)
+                if let Ok(Ok((_, vk2))) = guarded(|| MarlinPC::trim(&pp, max_degree, 0, None)) {
+                    if vk2.vk.g != vk.vk.g || vk2.vk.h != vk.vk.h || vk2.vk.beta_h != vk.vk.beta_h || vk2.vk.gamma_g != vk.vk.gamma_g { bad.push("verifier cores of two trims differ".into()); }
+                }
+                // commit at degree == supported succeeds, supported+1 errs
+                let p_ok = LabeledPolynomial::new("a".into(), DensePolynomial::<Fr>::rand(supported, &mut rng), None, None);
+                let p_bad = LabeledPolynomial::new("b".into(), DensePolynomial::<Fr>::rand(supported + 1, &mut rng), None, None);
+                if !matches!(guarded(|| MarlinPC::commit(&ck, [&p_ok], None)), Ok(Ok(_))) { bad.push("commit at degree == supported refused".into()); }
+                if matches!(guarded(|| MarlinPC::commit(&ck, [&p_bad], None)), Ok(Ok(_))) { bad.push("commit at degree == supported+1 answered".into()); }
+                if !bad.is_empty() {
+                    ctx.rep.expect_fail(&id, "marlin/trim-unfaithful", &bad.join("; "), format!("# scheme: marlin trim on real setup\n# D={} s={} shb={} bounds={:?}\n# seed {} case {}\n# {}\n", max_degree, supported, shb, tb, ctx.seed, id, bad.join("; ")));
+                }
+            }
+            other => {
+                // in-domain iff all bounds <= max_degree
+                let in_domain = tb.as_ref().map(|b| b.iter().all(|d| *d <= max_degree)).unwrap_or(true);
+                if in_domain {
+                    ctx.rep.expect_fail(&id, "marlin/trim-refused", &format!("in-domain trim refused: {:?}", other.map(|r| r.map(|_| ()).map_err(|e| err_kind(&e)))), format!("# marlin trim D={} s={} shb={} bounds={:?}\n", max_degree, supported, shb, tb));
+                }
+            }
+        }
+        // out-of-range trim requests
+        if matches!(guarded(|| MarlinPC::trim(&pp, max_degree + 1, 0, None)), Ok(Ok(_))) {
+            ctx.rep.expect_fail(&id, "marlin/trim-out-of-range-answered", "trim(supported = max_degree+1) answered", format!("# marlin trim D={}\n", max_degree));
+        }
+        if matches!(guarded(|| MarlinPC::trim(&pp, supported, 0, Some(&[max_degree + 1]))), Ok(Ok(_))) {
+            ctx.rep.expect_fail(&id, "marlin/trim-out-of-range-answered", "trim with an enforced bound above max_degree answered", format!("# marlin trim D={}\n", max_degree));
+        }
+        ctx.rep.count(&format!("kzg10/setup-g2-{}", g2));
+        ctx.rep.case(&format!("kzg10 setup D={} g2={} trim s={} shb={} B={:?}", max_degree, g2, supported, shb, tb), Some(format!("setup/{}/{}/{:?}", max_degree, g2, tb.as_ref().map(|b| b.len()))));
+    }
+}
+
+/// trapdoor mode: `trim` against the model on unsorted / duplicated / empty / None bound lists
+fn marlin_trim(ctx: &mut Ctx) {
+    let n = ctx.n(40, 500);
+    for i in 0..n {
+        let id = format!("C09/marlin-trim/{}", i);
+        if !ctx.selected(&id) { continue; }
+        let mut rng = rng_for(ctx.seed, "C09/marlin-trim", i as u64);
+        let max_degree = range(&mut rng, 1, 20);
+        let trap = Trap::random(&mut rng, max_degree);
+        let pp = trap.params(false);
+        let supported = [0, 1, max_degree / 2, max_degree, max_degree + 1][range(&mut rng, 0, 4)].min(max_degree + 1);
+        let shb = [0, 1, supported, max_degree, max_degree + 1][range(&mut rng, 0, 4)];
+        let tb: Option<Vec<usize>> = match range(&mut rng, 0, 4) {
+            0 => None,
+            1 => Some(vec![]),
+            _ => { let k = range(&mut rng, 1, 4); let mut v: Vec<usize> = (0..k).map(|_| range(&mut rng, 0, max_degree + 1)).collect(); if coin(&mut rng) { let d = v[0]; v.push(d); } Some(v) }
+        };
+        let r = guarded(|| MarlinPC::trim(&pp, supported, shb, tb.as_deref()));
+        let dummy = |ck, vk| Case { trap: trap.clone(), supported, shb, tbounds: tb.clone(), ck, vk, polys: vec![], kinds: vec![], comms: vec![], rands: vec![] };
+        match r {
+            Ok(Ok((ck, vk))) => {
+                let c = dummy(ck, vk);
+                marlin::ask_trim_commit(ctx, &id, &c);
+            }
+            Ok(Err(e)) => {
+                let c = Case { trap: trap.clone(), supported, shb, tbounds: tb.clone(), ck: MarlinPC::trim(&pp, 1.min(max_degree), 0, None).unwrap().0, vk: MarlinPC::trim(&pp, 1.min(max_degree), 0, None).unwrap().1, polys: vec![], kinds: vec![], comms: vec![], rands: vec![] };
+                ctx.ses.ask(&id, c.base("marlin.trim"), ImplOutcome::Refuse(err_kind(&e)));
+            }
+            Err(a) => {
+                let c = Case { trap: trap.clone(), supported, shb, tbounds: tb.clone(), ck: MarlinPC::trim(&pp, 1.min(max_degree), 0, None).unwrap().0, vk: MarlinPC::trim(&pp, 1.min(max_degree), 0, None).unwrap().1, polys: vec![], kinds: vec![], comms: vec![], rands: vec![] };
+                ctx.ses.ask(&id, c.base("marlin.trim"), ImplOutcome::Refuse(a));
+            }
+        }
+        ctx.rep.count(&format!("marlin/trim-bounds-{}", match &tb { None => "none", Some(v) if v.is_empty() => "empty", _ => "some" }));
+        ctx.rep.case(&format!("marlin trim D={} s={} shb={} B={:?}", max_degree, supported, shb, tb), Some(format!("trim/{}/{}/{:?}", supported as i64 - max_degree as i64, shb as i64 - max_degree as i64, tb)));
+    }
+}
+
+/// transparent setups (IPA, Hyrax): generators are valid, non-identity, pairwise distinct,
+/// deterministic and prefix-stable
+fn transparent_generators(ctx: &mut Ctx) {
+    use ark_poly::DenseMultilinearExtension;
+    let sizes: Vec<usize> = if ctx.thorough { vec![1, 2, 3, 7, 8, 15, 31, 64] } else { vec![1, 3, 8, 20] };
+    let mut prev: Option<Vec<G1Affine>> = None;
+    for &d in &sizes {
+        let id = format!("C09/ipa-setup/{}", d);
+        if !ctx.selected(&id) { continue; }
+        let mut rng = rng_for(ctx.seed, "C09/ipa-setup", d as u64);
+        let pp = match guarded(|| IpaPC::setup(d, None, &mut rng)) { Ok(Ok(p)) => p, _ => { ctx.rep.expect_fail(&id, "ipa/setup-refused", "setup refused", format!("# ipa setup({})\n", d)); continue; } };
+        let mut rng2 = rng_for(ctx.seed ^ 99, "C09/ipa-setup-other", d as u64);
+        let pp2 = IpaPC::setup(d, None, &mut rng2).unwrap();
+        let mut bad: Vec<String> = vec![];
+        if pp.comm_key != pp2.comm_key || pp.h != pp2.h || pp.s != pp2.s { bad.push("generators depend on the RNG (not derived from the protocol seed)".into()); }
+        let mut all: Vec<G1Affine> = pp.comm_key.clone(); all.push(pp.h); all.push(pp.s);
+        for p in &all { if p.is_zero() || !p.is_on_curve() || !p.is_in_correct_subgroup_assuming_on_curve() { bad.push("invalid / identity generator".into()); break; } }
+        let set: std::collections::BTreeSet<String> = all.iter().map(|p| format!("{:?}", p)).collect();
+        if set.len() != all.len() { bad.push("generators are not pairwise distinct".into()); }
+        if (pp.comm_key.len()).count_ones() != 1 || pp.comm_key.len() < d + 1 { bad.push(format!("key length {} for degree {}", pp.comm_key.len(), d)); }
+        if let Some(p) = &prev { let k = p.len().min(pp.comm_key.len()); if p[..k] != pp.comm_key[..k] { bad.push("generators are not prefix-stable".into()); } }
+        // trim: truthful reports, prefix of the parameters
+        if let Ok(Ok((ck, vk))) = guarded(|| IpaPC::trim(&pp, d, 0, None)) {
+            if ck.comm_key[..] != pp.comm_key[..ck.comm_key.len()] || ck.h != pp.h || ck.s != pp.s || vk.comm_key != ck.comm_key { bad.push("trimmed key is not a prefix of the parameters".into()); }
+            if PCCommitterKey::supported_degree(&ck) + 1 != ck.comm_key.len() || PCCommitterKey::supported_degree(&ck) < d { bad.push("supported_degree report".into()); }
+        } else { bad.push("in-domain trim refused".into()); }
+        if matches!(guarded(|| IpaPC::trim(&pp, pp.comm_key.len() + 5, 0, None)), Ok(Ok(_))) { bad.push("trim beyond the parameters answered".into()); }
+        if !bad.is_empty() { ctx.rep.expect_fail(&id, "ipa/setup-inconsistent", &bad.join("; "), format!("# scheme: ipa setup({})\n# {}\n", d, bad.join("; "))); }
+        prev = Some(pp.comm_key.clone());
+        ctx.rep.case(&format!("ipa setup D={} key={}", d, pp.comm_key.len()), Some(format!("ipa-setup/{}", d)));
+    }
+    let mut prevh: Option<Vec<G1Affine>> = None;
+    for nv in [2usize, 4, 6, 8] {
+        let id = format!("C09/hyrax-setup/{}", nv);
+        if !ctx.selected(&id) { continue; }
+        let mut rng = rng_for(ctx.seed, "C09/hyrax-setup", nv as u64);
+        type H = HyraxScheme;
+        let pp = match guarded(|| <H as PolynomialCommitment<Fr, DenseMultilinearExtension<Fr>>>::setup(1, Some(nv), &mut rng)) { Ok(Ok(p)) => p, _ => { ctx.rep.expect_fail(&id, "hyrax/setup-refused", "setup refused", format!("# hyrax setup nv={}\n", nv)); continue; } };
+        let mut rng2 = rng_for(ctx.seed ^ 7, "C09/hyrax-other", nv as u64);
+        let pp2 = <H as PolynomialCommitment<Fr, DenseMultilinearExtension<Fr>>>::setup(1, Some(nv), &mut rng2).unwrap();
+        let mut bad: Vec<String> = vec![];
+        if pp.com_key != pp2.com_key || pp.h != pp2.h { bad.push("generators depend on the RNG".into()); }
+        let mut all = pp.com_key.clone(); all.push(pp.h);
+        for p in &all { if p.is_zero() || !p.is_on_curve() || !p.is_in_correct_subgroup_assuming_on_curve() { bad.push("invalid / identity generator".into()); break; } }
+        let set: std::collections::BTreeSet<String> = all.iter().map(|p| format!("{:?}", p)).collect();
+        if set.len() != all.len() { bad.push("generators are not pairwise distinct".into()); }
+        if pp.com_key.len() != 1 << (nv / 2) { bad.push(format!("key length {} for nv {}", pp.com_key.len(), nv)); }
+        if let Some(p) = &prevh { let k = p.len().min(pp.com_key.len()); if p[..k] != pp.com_key[..k] { bad.push("generators are not prefix-stable".into()); } }
+        if !bad.is_empty() { ctx.rep.expect_fail(&id, "hyrax/setup-inconsistent", &bad.join("; "), format!("# scheme: hyrax setup nv={}\n# {}\n", nv, bad.join("; "))); }
+        prevh = Some(pp.com_key.clone());
+        ctx.rep.case(&format!("hyrax setup nv={} key={}", nv, pp.com_key.len()), Some(format!("hyrax-setup/{}", nv)));
+    }
+    let _ = (Fr::one(), wire::nat(0));
 }
